@@ -50,6 +50,15 @@ func (g *Gen) DrawIllegal(t *rapid.T, classes []string) (Op, bool) {
 
 func (g *Gen) plainComps() []int { return seq(len(g.M.U.Plain)) }
 
+// maybeVals lets a builder op carry component values in half of the cases (the builder with values
+// takes other paths through the world, with their own argument checks).
+func (g *Gen) maybeVals(t *rapid.T, op *Op) {
+	if len(op.Add) > 0 && rapid.Bool().Draw(t, "vals") {
+		op.Vals = true
+		op.Tok = g.toks(t, len(op.Add))
+	}
+}
+
 func (g *Gen) drawIllegal(t *rapid.T, cl string) (Op, bool) {
 	m := g.M
 	dead := m.DeadOrds()
@@ -227,7 +236,9 @@ func (g *Gen) drawIllegal(t *rapid.T, cl string) (Op, bool) {
 		case 1: // builder names a relation that is not among the created components
 			cs := subset(t, g.plainComps(), 0, "comps")
 			k := pickS(t, []string{OpBuildNew, OpBuildBatch}, "k")
-			return Op{K: k, Add: cs, Rel: true, C: r, T: g.pickTarget(t, -1), N: rapid.IntRange(1, 3).Draw(t, "n"), Q: rapid.Bool().Draw(t, "q")}, true
+			op := Op{K: k, Add: cs, Rel: true, C: r, T: g.pickTarget(t, -1), N: rapid.IntRange(1, 3).Draw(t, "n"), Q: rapid.Bool().Draw(t, "q")}
+			g.maybeVals(t, &op)
+			return op, true
 		default: // Relations.Exchange whose result lacks the named relation
 			e, ok := g.pickWith(t, func(s EntState) bool { return !s.Has(r) && s.Count() < n })
 			if !ok {
@@ -267,7 +278,9 @@ func (g *Gen) drawIllegal(t *rapid.T, cl string) (Op, bool) {
 		case 1:
 			cs := append(subset(t, minus(g.plainComps(), []int{c}), 0, "comps"), c)
 			k := pickS(t, []string{OpBuildNew, OpBuildBatch}, "k")
-			return Op{K: k, Add: cs, Rel: true, C: c, T: g.pickTarget(t, -1), N: rapid.IntRange(1, 3).Draw(t, "n"), Q: rapid.Bool().Draw(t, "q")}, true
+			op := Op{K: k, Add: cs, Rel: true, C: c, T: g.pickTarget(t, -1), N: rapid.IntRange(1, 3).Draw(t, "n"), Q: rapid.Bool().Draw(t, "q")}
+			g.maybeVals(t, &op)
+			return op, true
 		default:
 			cands := minus(g.absent(st), rels)
 			if len(cands) == 0 {
@@ -293,6 +306,7 @@ func (g *Gen) drawIllegal(t *rapid.T, cl string) (Op, bool) {
 			op.E = e
 			op.Add = []int{pick(t, cands, "add")}
 		}
+		g.maybeVals(t, &op)
 		return op, true
 
 	case IllDeadTarget:
